@@ -18,10 +18,10 @@ Local Open Scope N_scope.
    uint64, wrap-around included; the log fits into uint64.) *)
 Theorem C07_exactly_once_in_order : forall base pl batches applied' done,
     base + N.of_nat (List.length pl) + 1 < W64 ->
-    Forall (is_window (number (base + 1) pl)) batches ->
+    Forall (is_window (number_log (base + 1) pl)) batches ->
     ready_run base [] batches = Some (applied', done) ->
     exists k, (k <= List.length pl)%nat /\ applied' = base + N.of_nat k /\
-              done = firstn k (number (base + 1) pl) /\
+              done = firstn k (number_log (base + 1) pl) /\
               map eidx done = map (fun i => base + 1 + N.of_nat i) (seq 0 k).
 Proof. exact exactly_once_in_order. Qed.
 Print Assumptions C07_exactly_once_in_order.
@@ -30,7 +30,7 @@ Print Assumptions C07_exactly_once_in_order.
    continuing would skip an entry -- which the Raft library never hands out. *)
 Theorem C07_stops_only_on_gap : forall base pl k pre b post,
     base + N.of_nat (List.length pl) + 1 < W64 ->
-    number (base + 1) pl = pre ++ b ++ post -> (k <= List.length pl)%nat ->
+    number_log (base + 1) pl = pre ++ b ++ post -> (k <= List.length pl)%nat ->
     (ready_step (base + N.of_nat k) b = None <-> b <> [] /\ (k < List.length pre)%nat).
 Proof. exact stops_only_on_gap. Qed.
 Print Assumptions C07_stops_only_on_gap.
@@ -91,7 +91,7 @@ Example C07_ex_det :
             (B "3", [B "GET"; B "k"]); (B "4", [B "LRANGE"; B "l"; B "0"; B "-1"]); (B "5", [B "INCR"; B "n"])].
 Proof. exact det_example. Qed.
 Example C07_ex_run :
-  let L := number 6 [PCmd (B "a") []; PEmpty; PCmd (B "b") []; PCmd (B "c") []] in
-  ready_run 5 [] [window L 0 2; window L 1 2; window L 0 1; window L 3 5; []]
+  let L := number_log 6 [PCmd (B "a") []; PEmpty; PCmd (B "b") []; PCmd (B "c") []] in
+  ready_run 5 [] [log_window L 0 2; log_window L 1 2; log_window L 0 1; log_window L 3 5; []]
   = Some (9, L).
 Proof. vm_compute. reflexivity. Qed.
